@@ -413,6 +413,23 @@ func runHist(ci interface{}, s *vkit.Stats) error {
 				varMocked, varCur = false, varOrig
 			}
 			fp = append(fp, "R")
+		case "badstub":
+			// an interface-method stub goom refuses (the As signature has a parameter too many) is not an instruction: whatever
+			// was in force stays in force, and the next well-formed instruction takes effect as usual
+			if t != 5 && t != 6 {
+				continue
+			}
+			name := "P"
+			if t == 6 {
+				name = "Q"
+			}
+			bad := func(ctx *mocker.IContext, x int, extra int) (r int) { return }
+			if rpv := guard(func() { b.Interface(&ifv).Method(name).As(bad).Return(v) }); rpv == nil {
+				s.Exclude("ill-formed-interface-stub-was-accepted(property C13 judges that)")
+				return nil
+			}
+			s.Class("refused-interface-stub-between-instructions")
+			fp = append(fp, fmt.Sprintf("b%d", t))
 		case "gc":
 			// the most recent instruction keeps deciding after a collection (superseded stubs and callbacks may go, the live ones not)
 			vkit.GC()
@@ -468,7 +485,7 @@ func runHist(ci interface{}, s *vkit.Stats) error {
 	return nil
 }
 
-var opGen = vkit.OpGen([]string{"apply", "ret", "when", "call", "cancel", "reset", "other", "gc"}, []int{5, 5, 3, 6, 2, 1, 1, 1}, 4)
+var opGen = vkit.OpGen([]string{"apply", "ret", "when", "call", "cancel", "reset", "other", "gc", "badstub"}, []int{5, 5, 3, 6, 2, 1, 1, 1, 2}, 4)
 
 func quiet() {
 	if f, err := os.OpenFile(os.DevNull, os.O_WRONLY, 0); err == nil && os.Getenv("VERIF_VERBOSE") == "" {
